@@ -508,7 +508,11 @@ static int get_terminator (char *terminator) {
   int c, j = 0;
 
   while (((c = *outptr++) != LEX_EOF) && (isalnum (c) || c == '_'))
-    terminator[j++] = (char)c;
+    {
+      if (j >= MAXLINE)		/* size of the caller's buffer */
+        return 0;
+      terminator[j++] = (char)c;
+    }
 
   terminator[j] = '\0';
 
